@@ -10,7 +10,7 @@ FUNCTIONS = ["StereoMolGraph.enantiomer", "StereoCondensedReactionGraph.enantiom
 BOUNDS = {"quick": "SMG / SCRG graphs of the small family over {0,1,2} (descriptors with placeholders, unspecified parity, stereo changes) and templates star4 (Tet/SP), "
                    "lonepair, dbond (PlanarBond / AtropBond), ring4, sn2 with every listed ordering / parity / change variant; every graph also after it has been compared (both sides) and hashed; octahedral / TBP centres with repeated ligands (MA2B2C2, MA3B3, MA2B2CD; MA2B3, MA2BCD), strided orderings",
           "thorough": "all decorations; templates twocentre (meso forms), star5 (TBP), star6 (Oct)"}
-OUTSIDE = "graphs larger than the templates (8 atoms)"
+OUTSIDE = "graphs larger than the templates (8 atoms; biatrop 11 atoms)"
 ASSUMPTIONS = ["mirror image built by the oracle (parity flip of chiral descriptors with specified parity), chirality decided by brute-force search for an isomorphism onto it"]
 
 
